@@ -342,8 +342,8 @@ def run(ctx):
         ctx.ob("C20.S.bounds-cover-trait-uses", cands[0].key, "walks its type on every path", cs == [([], want)], "cases %s" % cs)
     f = ctx.fn("darling_core::codegen::trait_impl::TraitImpl::<'a>::used_type_params", required=False)
     if f:
-        preds = [ctx.true_conditions(c) for c in ctx.closures_of(f)]
-        ok = len(preds) == 2 and all(p == [{"a2.skip=False"}] for p in preds)
+        preds = common.callable_args_conditions(ctx, f, r"TraitImpl::<'a>::type_params_matching$", (1, 2)) or []
+        ok = len(preds) == 2 and all(p == [{"elem.skip=False"}] for p in preds)
         ctx.ob("C20.S.bounds-cover-trait-uses", f.key, "only skipped fields / variants are left out", ok, "filters keep an element under %s" % preds)
     # ---------------------------------------------------------------- filled ⇒ consumed (F16)
     from .C16 import magic_table
